@@ -458,3 +458,10 @@ pub fn ref_crc64(data: &[u8]) -> u64 {
 pub fn stub_format(_args: std::fmt::Arguments<'_>) -> String {
     String::new()
 }
+
+/// Stub for `std::io::Error::is_interrupted`: the faults injected by these harnesses are of kind
+/// Other, never Interrupted; decoding io::Error's bit-packed representation is very expensive
+/// under CBMC (default Write::write_all / Read::read_exact call it on every error).
+pub fn stub_not_interrupted(_e: &std::io::Error) -> bool {
+    false
+}
